@@ -901,3 +901,28 @@ func analyze(c map[string]int64) {
 		}
 	}
 }
+
+// FailPath records a failure of class `class` located by a chain of positions
+// (innermost first, e.g. the "Type.Field" frames from the place where a name is
+// written out to the statement root).  The failure is attributed to the first
+// listed finding "<class>@<frame>" along the chain (skipping frame 0, the
+// name-bearing field itself, unless it is the only one); an unlisted failure is
+// named after the innermost enclosing position.
+func (c *Ctx) FailPath(id, class string, frames []string, msg string) {
+	kn, ok := knownCache[id]
+	if !ok {
+		kn = LoadKnown(id)
+		knownCache[id] = kn
+	}
+	order := frames
+	if len(frames) > 1 {
+		order = append(append([]string{}, frames[1:]...), frames[0])
+	}
+	for _, f := range order {
+		if _, ok := kn[class+"@"+f]; ok {
+			c.Fail(class+"@"+f, msg)
+			return
+		}
+	}
+	c.Fail(class+"@"+order[0], msg)
+}
